@@ -392,6 +392,10 @@ def features(case):
                 fs.add("import-" + st[2])
             if st[0] == "ho":
                 fs.add("higher-order")
+                if st[2] not in ("bare", "alias") and prog["funcs"][st[1]]["mod"] != f["mod"]:
+                    fs.add("higher-order-through-module-attribute")
+            if st[0] == "var" and len(st) > 2:
+                fs.add("variable-through-module-attribute")
             if M.inline_args(st):
                 fs.add("call-inside-argument")
             if st[0] == "cls":
